@@ -1,6 +1,11 @@
 #!/usr/bin/env python3
-"""Print the markdown tables of repaired defects and of seeded changes (pasted into DESIGN.md sections 5 and 6)."""
-import json, glob, os
+"""Regenerate the tables of repaired defects and of seeded changes in DESIGN.md (between the *_TABLE_BEGIN/END markers);
+with --print only print them."""
+import json, glob, os, sys, io
+_out = io.StringIO()
+_print = print
+def print(*a):
+    _print(*a, file=_out)
 ROOT = os.path.dirname(os.path.dirname(os.path.abspath(__file__)))
 d = json.load(open(os.path.join(ROOT, 'known_findings.json')))
 print('| property | fix commit in /repo | defect (reproduced by the check before the repair) |\n|---|---|---|')
@@ -13,3 +18,16 @@ print('| seed | change (still passes the 423 tests) | needs, to manifest | outco
 for p in sorted(glob.glob(os.path.join(ROOT, 'seeded', '*', 'meta.json'))):
     m = json.load(open(p)); k = os.path.basename(os.path.dirname(p))
     print('| %s | %s | %s | %s |' % (k, m['breaks'].replace('|', '\\|'), m['needs_to_manifest'].replace('|', '\\|'), m['check_result'].replace('|', '\\|')))
+
+fix, seed = _out.getvalue().split('\n\n', 1)
+if '--print' in sys.argv:
+    _print(_out.getvalue())
+else:
+    p = os.path.join(ROOT, 'DESIGN.md')
+    s = open(p).read()
+    for name, body in (('FIX', fix), ('SEED', seed)):
+        b, e = '<!-- %s_TABLE_BEGIN -->' % name, '<!-- %s_TABLE_END -->' % name
+        i, j = s.index(b) + len(b), s.index(e)
+        s = s[:i] + '\n' + body.strip() + '\n' + s[j:]
+    open(p, 'w').write(s)
+    _print('DESIGN.md tables regenerated: %d fixes, %d seeds' % (fix.count('\n| C'), seed.count('\n| C')))
